@@ -1,6 +1,7 @@
 SPEC_PART = dict(
     props_file="C12_freq",
-    legs=[dict(family="freq", focus="layout", oracles=["prop_layout"], profiles=["debug"], n_quick=30, n_thorough=400)],
+    legs=[dict(family="freq", focus="layout", oracles=["prop_layout"], profiles=["debug"], n_quick=30, n_thorough=400,
+               panic_is_violation=True)],
     trusted=["Frequent Items format = my reading of the Java/C++ layout (DESIGN.md Appendix A): 8-byte empty image, 4-long preamble, "
              "counts then items; no upstream files available offline"],
     assumptions=[],
